@@ -672,6 +672,12 @@ def rule_c14(ctx):
         # restrict to encodeFun calls that encode components of `value` (value arm)
         ctx.ob('C14.enc', f, 'value arm: isInconsistent -> raise before any component is encoded', bool(cons) and not bad,
                'constraint tests %d; %s' % (len(cons), 'component encoding reachable without it' if bad or not cons else 'dominates every component encoding'))
+        # ... and before the encoder returns at all (an empty container can violate a SIZE constraint too)
+        rets = [n for n in cfg.stmt_nodes() if isinstance(n.ast, ast.Return)]
+        early = [r for r in rets if _feasible_with(cfg, cfg.entry, r, cons, assume)]
+        ctx.ob('C14.enc', f, 'value arm: no return before the isInconsistent test', bool(cons) and not early,
+               '`%s` is reachable without the consistency test: a value that violates its constraints without having components '
+               '(an empty SET SIZE(1..3) OF) is encoded' % early[0].text()[:50] if early else 'every return follows the test')
     # derived constraint sets remember what they were derived from
     for opn in ('__add__', '__radd__'):
         f = ctx.func('type.constraint.AbstractConstraintSet.%s' % opn)
